@@ -334,13 +334,18 @@ func ruleC04_3(c *Ctx) {
 	nret := 0
 	allInstrs(getConn, func(in ssa.Instruction) {
 		r, ok := in.(*ssa.Return)
-		if !ok || len(r.Results) != 4 || isNilConst(results(r)[0]) {
+		if !ok {
+			return
+		}
+		// the connection among what is returned: result #0 of the tuple, or the SConn field of a returned struct
+		connV := componentOfType(retComponents(r), func(t types.Type) bool { n, ok := t.(*types.Named); return ok && n.Obj().Name() == "SConn" })
+		if connV == nil || isNilConst(connV) {
 			return
 		}
 		nret++
 		okConn := false
-		desc := expr(results(r)[0])
-		if call, ok := p.isCallTo(strip(results(r)[0]), poolGet); ok {
+		desc := expr(connV)
+		if call, ok := p.isCallTo(strip(connV), poolGet); ok {
 			if ex, ok := strip(call.Call.Args[0]).(*ssa.Extract); ok && ex.Index == 0 {
 				if lk, ok := ex.Tuple.(*ssa.Lookup); ok {
 					if _, isPP := fieldLoad(lk.X, proxyPool); isPP {
@@ -371,8 +376,21 @@ func ruleC04_4(c *Ctx) {
 	}
 	frags := p.Field(pkgCore, "Msg", "Frags")
 	frags2 := p.Field(pkgCore, "Msg", "Frags2")
+	// a helper with a single return (`slot := resp.addKey(key)`, which records the key and returns its slot) is seen through
+	helperRet := func(call *ssa.Call) []ssa.Value {
+		h := call.Call.StaticCallee()
+		if h == nil || !p.isHelper(h) || h.Signature.Results().Len() != 1 {
+			return nil
+		}
+		rets := returnsReachable(h)
+		if len(rets) != 1 {
+			return nil
+		}
+		bindCall(h, call.Call.Args)
+		return []ssa.Value{results(rets[0].(*ssa.Return))[0]}
+	}
 	keyIsHash := func(fn *ssa.Function, k ssa.Value) (bool, string) {
-		roots := flowRoots(k, nil)
+		roots := flowRoots(k, helperRet)
 		var why []string
 		for _, r := range roots {
 			if _, ok := p.isCallTo(r, hash); ok {
@@ -603,6 +621,22 @@ func ruleC04_5(c *Ctx) {
 			for _, o := range oc {
 				if dominatesInstr(o.(ssa.Instruction), r) {
 					dom = true
+				}
+			}
+			// or: the return is on the err == nil edge of a helper (eventloop.register) all of whose possibly-nil
+			// returns come after / are the result of el.open
+			for _, g := range guardsAt(r.Block()) {
+				x, op, y, ok := cmpGuard(g)
+				if !ok || op != token.EQL || !isNilConst(y) {
+					continue
+				}
+				if ex, isEx := x.(*ssa.Extract); isEx {
+					x = ex.Tuple
+				}
+				if call, isCall := x.(*ssa.Call); isCall {
+					if h := call.Call.StaticCallee(); h != nil && p.isHelper(h) && calledOnNilPaths(p, h, open, 2) {
+						dom = true
+					}
 				}
 			}
 			c.check(dom, "engine.Dial: handshake before hand-out", c.at(r), "the success return is dominated by el.open(conn), which writes or buffers the handshake",
@@ -887,4 +921,64 @@ func ruleC20_3(c *Ctx) {
 	if appends == 0 {
 		c.undecided("route: candidates", p.pos(route.Pos()), "no append to liveSlaves found")
 	}
+}
+
+// calledOnNilPaths: every return of helper h whose (last) error result may be nil is preceded by - or is the
+// result of - a call of target (directly or through a further helper with the same property).
+func calledOnNilPaths(p *Prog, h, target *ssa.Function, depth int) bool {
+	if h == nil || h.Blocks == nil || depth < 0 {
+		return false
+	}
+	var calls []ssa.Instruction
+	allInstrs(h, func(in ssa.Instruction) {
+		if ci, ok := in.(ssa.CallInstruction); ok {
+			callee := ci.Common().StaticCallee()
+			if callee == nil {
+				return
+			}
+			if p.declared(callee) == p.declared(target) || (p.isHelper(callee) && calledOnNilPaths(p, callee, target, depth-1)) {
+				calls = append(calls, in)
+			}
+		}
+	})
+	rets := returnsReachable(h)
+	if len(rets) == 0 {
+		return false
+	}
+	for _, r := range rets {
+		rs := results(r.(*ssa.Return))
+		if len(rs) == 0 {
+			return false
+		}
+		rv := rs[len(rs)-1]
+		nonNil := false
+		for _, g := range guardsAtRaw(r.Block()) {
+			if x, op, y, ok := cmpGuard(g); ok && op == token.NEQ && isNilConst(y) && x == rv {
+				nonNil = true
+			}
+		}
+		if nonNil {
+			continue
+		}
+		okR := false
+		for _, cl := range calls {
+			if dominatesInstr(cl, r) {
+				okR = true
+			}
+		}
+		if !okR {
+			return false
+		}
+	}
+	return true
+}
+
+// componentOfType picks the (first) returned component whose type satisfies pred.
+func componentOfType(comps []ssa.Value, pred func(types.Type) bool) ssa.Value {
+	for _, v := range comps {
+		if v != nil && pred(v.Type()) {
+			return v
+		}
+	}
+	return nil
 }
